@@ -5,7 +5,8 @@
    The whole-document round trip is in Properties/ParserThms.v (parser model) and explored. *)
 From GV Require Import Base.Prelude Gen.Tables Gen.TableChecks Lang.Lexer Lang.LexerProps
   Lang.PrintString Lang.PrintStringProps Lang.BlockString Lang.BlockStringProps
-  Properties.BlockStringThms.
+  Properties.BlockStringThms Lang.Ast Lang.Parser Lang.Unparse Lang.Wf Lang.ParserProps Lang.UnparseProps
+  Lang.WfProps Properties.ParserThms.
 
 (* For every text of Unicode scalar values, reading print_string's output (from the character
    after the opening quote, at offset pos, with anything following the closing quote) yields
@@ -62,6 +63,25 @@ Theorem C08_out_of_range_refuted : forall raw,
   block_value raw <> Ok [10] /\ block_value raw <> Ok [32; 97; 10; 32; 98].
 Proof. exact out_of_range_refuted. Qed.
 Print Assumptions C08_out_of_range_refuted.
+
+(* ---- whole documents, values, types: token-level unparse then parse (proofs in Lang/UnparseProps.v) ----
+   tokens_of is the token sequence that print_ast realises up to layout (tied by the correspondence).
+   Full grammar: executable, type-system, extensions, mixed, fragment arguments, directives on
+   directive definitions. *)
+Theorem C08_unparse_parse_roundtrip : forall e o ts x v,
+  max_tokens o = None ->
+  wf_ast e (exp_fragment_arguments o) (exp_directives_on_directive_definitions o) x ->
+  map sig ts = tokens_of x ++ [(K_EOF, v)] ->
+  parse_entry e o ts = Ok (x, length (tokens_of x)).
+Proof. exact parser_unparse_roundtrip. Qed.
+Print Assumptions C08_unparse_parse_roundtrip.
+
+(* wf_ast describes exactly the trees the parser returns ... *)
+Theorem C08_parser_output_wf : forall e o ts x c,
+  parse_entry e o ts = Ok (x, c) ->
+  wf_ast e (exp_fragment_arguments o) (exp_directives_on_directive_definitions o) x.
+Proof. exact parser_output_wf. Qed.
+Print Assumptions C08_parser_output_wf.
 
 (* as a whole token: lexing the printed string gives one STRING token with that value *)
 Example C08_example :
